@@ -495,14 +495,21 @@ Inductive ev := Adv (dt : Z) | Wifi (status : Z) | ConnCb | DiscCb | Recv (b : l
               | SentRes (l : list Z) | Local (api : Z) | Server (delay : Z) | Bad.
 
 (* the SDK delivers connect_cb only for a pending request, disconnect_cb only for a live/closing connection,
-   received data only on a live connection (Env_disconnect_before_connect of the design) *)
+   received data on a live connection (Env_disconnect_before_connect of the design) -- and a segment that was in flight when
+   the device called espconn_disconnect may still be delivered while the connection is closing: the close then completes, i.e.
+   that delivery is followed by the disconnect callback before any other event (one compound event, see dev_step) *)
 Definition env_allows (s : st) (e : ev) : bool :=
   match e with
   | ConnCb => link s =? L_PENDING
   | DiscCb => (link s =? L_LIVE) || (link s =? L_CLOSING)
-  | Recv _ => link s =? L_LIVE
+  | Recv _ => (link s =? L_LIVE) || (link s =? L_CLOSING)
   | _ => true
   end.
+
+(* the SDK's disconnect callback for the live / closing connection *)
+Definition disc_step (s : st) : st :=
+  let s1 := if link s =? L_LIVE then wire_close s else s in
+  disconnect_cb (set_link L_IDLE (emit O_DISCD [now s1; conn s1; evi s1] s1)).
 
 Definition dev_step (s : st) (e : ev) : st :=
   match e with
@@ -512,10 +519,10 @@ Definition dev_step (s : st) (e : ev) : st :=
       let s1 := set_stalled false (set_wbuf [] (set_conn (conn s + 1) (set_link L_LIVE s))) in
       let s2 := connect_cb s1 in
       emit O_FRESH [now s2; conn s2; len (espbuf s2); len (recvbuf s2); registered s2; evi s2] s2
-  | DiscCb =>
-      let s1 := if link s =? L_LIVE then wire_close s else s in
-      disconnect_cb (set_link L_IDLE (emit O_DISCD [now s1; conn s1; evi s1] s1))
-  | Recv b => recv_cb b (emit O_RX [now s; conn s; evi s] s)
+  | DiscCb => disc_step s
+  | Recv b =>
+      let s1 := recv_cb b (emit O_RX [now s; conn s; evi s] s) in
+      if link s =? L_CLOSING then disc_step s1 else s1
   | SentMode r => set_liveres r s
   | SentRes l => set_script l s
   | Local api => local_call api s
